@@ -243,6 +243,93 @@ TOPFILES = ["native.pdb", "ala_ala_ala.psf", "alanine-dipeptide-explicit.prmtop"
             "frame0.xyz.gz", "frame0.tng", "ncinpcrd.rst7", "inpcrd"]
 
 
+# how the file name reaches the call: a variable that outlives the handle; a temporary of the call expression, followed
+# at once by the write; the same with ordinary string allocations between open() and write()
+_HELD = {True: "held", False: "temporary", "alloc": "temporary+allocations"}
+
+
+def bystander_case(args):
+    """A write to a NEW name must leave every bystander alone: files in the working directory, in the target's
+    directory and in a sibling directory.  The name is handed over as a temporary string (built in the call
+    expression, referenced by nobody afterwards) or as a held variable -- the usual ways to call save()/open()."""
+    ext, entry, held, nfr, seed, scratch = args
+    _quiet()
+    import mdtraj as md
+    from vlib.refmodels import writers
+    rep = {"kind": "bystander", "ext": ext, "entry": entry, "held": held, "nfr": nfr}
+    tag = "%s|%s|name=%s|new-target|%s" % (ext, entry, _HELD[held], "multi" if nfr > 1 else "single")
+    d = os.path.join(scratch, "b_" + hashlib.md5(repr(args[:4]).encode()).hexdigest()[:12])
+    shutil.rmtree(d, ignore_errors=True)
+    out = []
+    old = os.getcwd()
+    try:
+        for sub in ("cwd", "out", "sibling"):
+            os.makedirs(os.path.join(d, sub))
+            for k in range(2):
+                with open(os.path.join(d, sub, "bystander%d.dat" % k), "wb") as f:
+                    f.write(bytes(range(256)) * (k + 1))
+        os.makedirs(os.path.join(d, "sibling", "nested.dir"))
+        open(os.path.join(d, "sibling", "nested.dir", "deep.dat"), "wb").write(b"deep")
+        os.chdir(os.path.join(d, "cwd"))
+        before = {sub: _snapshot(os.path.join(d, sub)) for sub in ("cwd", "out", "sibling")}
+        t = _traj(nfr, 4, seed)
+        name = "Out_Mixed.Case." + ext
+        kept = os.path.join(d, "out", name)
+        err = None
+        try:
+            if entry == "save":
+                if held is True:
+                    t.save(kept)
+                else:
+                    t.save("/".join([d, "out", name]))
+            else:
+                f = md.open(kept, "w") if held is True else md.open("/".join([d, "out", name]), "w")
+                filler = ["/".join([d, "sibling", "nested.dir"]) for _ in range(8)] if held == "alloc" else None
+                try:
+                    if ext in RESTART:
+                        f.write(coordinates=t.xyz * 10, time=t.time[0], cell_lengths=t.unitcell_lengths * 10, cell_angles=t.unitcell_angles)
+                    else:
+                        writers.write_block(f, WRITER_FMT.get(ext, ext), t, 0, nfr, first=True)
+                finally:
+                    f.close()
+                del filler
+        except Exception as e:  # noqa
+            err = e
+        os.chdir(old)
+        for sub in ("cwd", "out", "sibling"):
+            if not os.path.isdir(os.path.join(d, sub)):
+                out.append((tag + "|bystander-directory-removed:" + sub, "directory %s/ no longer exists after the write" % sub, rep))
+                continue
+            after = _snapshot(os.path.join(d, sub))
+            for n, h in before[sub].items():
+                if after.get(n) != h:
+                    out.append((tag + "|bystander-modified:" + sub, "%s/%s %s although the call writes %s only" % (
+                        sub, n, "was removed" if n not in after else "changed", "out/" + name), rep))
+            extra = sorted(set(after) - set(before[sub]) - set(os.path.basename(x) for x in _targets(kept, ext, nfr)))
+            if extra and sub != "out":
+                out.append((tag + "|stray-output", "new entries %s appeared in %s/" % (extra[:3], sub), rep))
+        if err is not None:
+            out.append((tag + "|raised", "writing to a new name raised %s: %s" % (type(err).__name__, str(err)[:120]), rep))
+        elif not all(os.path.exists(x) for x in _targets(kept, ext, nfr)):
+            out.append((tag + "|no-output", "the call returned but %s does not exist" % name, rep))
+    finally:
+        os.chdir(old)
+        shutil.rmtree(d, ignore_errors=True)
+    return out, tag
+
+
+def bystander_isolated(args):
+    """bystander_case in a forked child: a writer working from a stale name can also corrupt the heap."""
+    from vlib.iso import isolated
+    st, val = isolated(lambda: bystander_case(args), timeout=180)
+    if st == "ok":
+        return val
+    ext, entry, held, nfr = args[:4]
+    tag = "%s|%s|name=%s|new-target|%s" % (ext, entry, _HELD[held], "multi" if nfr > 1 else "single")
+    rep = {"kind": "bystander", "ext": ext, "entry": entry, "held": held, "nfr": nfr}
+    return [(tag + "|" + st, "the write %s: %s" % ("crashed the interpreter" if st == "crash" else st, str(val)[:160]), rep)], tag
+
+
 def read_case(args):
     kind, name, seed, scratch, repo = args
     import mdtraj as md
@@ -338,6 +425,18 @@ def run(ctx):
             distinct.add(tag)
         siblings += info.get("new_siblings", 0) > 0 and "fo=False" in tag
         bytes_equal += bool(info.get("bytes_equal"))
+    bjobs = []
+    for ext in SAVE_EXTS:
+        for entry, held, nfr in itertools.product(("save", "open"), (True, False, "alloc"), (1, 3)):
+            if (entry == "open" and ext in RESTART and nfr > 1) or (entry == "save" and held == "alloc"):
+                continue
+            bjobs.append((ext, entry, held, nfr, ctx.seed, ctx.scratch))
+    bn = 0
+    for viol, tag in ctx.pmap(bystander_isolated, bjobs):
+        ctx.report(viol)
+        bn += 1
+        if not viol:
+            distinct.add(tag)
     rjobs = [("gen", e, ctx.seed, ctx.scratch, ctx.repo) for e in READ_EXTS] + \
             [("repo", f, ctx.seed, ctx.scratch, ctx.repo) for f in TOPFILES]
     routs = ctx.pmap(read_case, rjobs)
@@ -348,7 +447,7 @@ def run(ctx):
         for o in ops:
             distinct.add("read|%s|%s" % (name, o))
     return "exploration", {
-        "evaluations": n + rn, "distinct_nontrivial": len(distinct),
+        "evaluations": n + rn + bn, "distinct_nontrivial": len(distinct), "bystander_cases": bn,
         "rule": "one real execution per cell of ext x pre-existing x frames x entry x force_overwrite (+ which path "
                 "pre-exists for numbered restart output); one per (file, read entry point); a case is counted when it "
                 "passed its before/after comparison",
@@ -363,7 +462,10 @@ def run(ctx):
 
 
 def replay(ctx, rep):
-    if rep["kind"] == "write":
+    if rep["kind"] == "bystander":
+        a = bystander_case((rep["ext"], rep["entry"], rep["held"], rep["nfr"], ctx.seed, ctx.scratch))[0]
+        b = bystander_case((rep["ext"], rep["entry"], rep["held"], rep["nfr"], ctx.seed, ctx.scratch))[0]
+    elif rep["kind"] == "write":
         a = write_case((rep["ext"], rep["pre"], rep["nfr"], rep["entry"], rep["fo"], rep["where"], ctx.seed, ctx.scratch))[0]
         b = write_case((rep["ext"], rep["pre"], rep["nfr"], rep["entry"], rep["fo"], rep["where"], ctx.seed, ctx.scratch))[0]
     else:
